@@ -230,12 +230,14 @@ CLAIMED = {
         "exact: every token reaches the parser with the character range it occupies in the listed text (blanks and multi-byte text included), every "
         "parser function leaves the parser on a token boundary, and for every line that parses, every branch target of GOTO / GOSUB / ON.. / THEN n / "
         "ELSE n / RESTORE n / RUN n carries exactly the range of its number token and every WHILE / WEND exactly the range of its keyword, at any "
-        "nesting of IF (Props/C19.v, Proofs/ErrBlock.v, LinkErr.v, ParseCols.v).",
+        "nesting of IF; the code generator hands those ranges on: every reference to a program line that the code of any statement of a parsed line "
+        "leaves for the linker carries the range of a number token of that line (Props/C19.v, Proofs/ErrBlock.v, LinkErr.v, ParseCols.v, RefCols.v).",
         "programs of sentinel-printing lines with injected dangling references in every referencing form, unmatched WHILE/WEND and token damage behind ASCII "
         "and multi-byte text, entered through RUN, RUN n, GOTO, GOSUB, ON.., CONT on model and crate; nothing may be printed by the program, direct "
         "statements (looping ones included) must still work, and the reported range must underline exactly the number / keyword in the listed line.",
-        "PARTIAL: that code generation hands the parser's range on unchanged for every statement form (proved for GOTO / ON..GOTO / LET / PRINT / END "
-        "pieces), the ranges of syntax errors, and the shift by the line-number prefix on display end to end are decided by the monitor, not proved.",
+        "PARTIAL: the attribution of a reference to its own line and the program-level linking are proved for the GOTO / ON..GOTO / LET / PRINT / END "
+        "fragment only; the ranges of syntax errors and of WHILE / WEND diagnostics at link time, and the shift by the line-number prefix on display "
+        "end to end, are decided by the monitor, not proved.",
         "Coq theorems on the entry guard and on the linker's diagnostic + fault-injection differential check with an underline monitor"),
     "C20": entry(
         "appending a fragment places its code unchanged behind the existing code; linking patches every recorded reference whose symbol is defined with "
